@@ -59,7 +59,9 @@ def zones_of(prj):
     out = []
     for z in range(1, n + 1):
         cm = cm1 + (z - 1) * zw
-        if -180.0 <= cm <= 180.0:
+        # zones whose central meridian lies up to 30 deg beyond +-180 are still within 30 deg (on the circle) of longitudes
+        # on the other side of the antimeridian
+        if -210.0 < cm < 210.0:
             out.append(z)
     return out
 
@@ -119,12 +121,15 @@ def geo_cases(draw, invf_lo=150.0, invf_hi=400.0, kinds=True, max_dlon=30.0, prj
         if abs(dl) > max_dlon:
             dl = math.copysign(max_dlon, dl)
         lon = cm + dl
+        # across the antimeridian: either express the same longitude in [-180, 180) (the zone's central meridian is then
+        # ~360 deg away numerically, a few degrees away on the circle) or stay on the central meridian's side
+        across = draw(st.booleans())
         if lon >= 180.0:
-            lon = cm - abs(dl)
+            lon = (lon - 360.0) if across else (cm - abs(dl))
         if lon < -180.0:
-            lon = cm + abs(dl)
+            lon = (lon + 360.0) if across else (cm + abs(dl))
         if not (-180.0 <= lon < 180.0):
-            lon = cm
+            lon = ((cm + 180.0) % 360.0) - 180.0
     kind_ = draw(S.angle_kind) if kinds else "float"
     return {"lat": lat, "lon": lon, "zone": zone, "ell": ell, "prj": prj, "kind": kind_}
 
@@ -138,7 +143,8 @@ def resolve(case):
 def oracle_forward(lat, lon, cm, case):
     a, invf = S.ellipsoid_params(case["ell"])
     fe, fn, k0, zw, cm1, kind = S.projection_params(case["prj"])
-    n, e, k, g = tm_exact.exact_tm(lat, lon - cm, a, invf)
+    dl = ((lon - cm + 180.0) % 360.0) - 180.0          # the difference on the circle
+    n, e, k, g = tm_exact.exact_tm(lat, dl, a, invf)
     east = k0 * e + fe
     north = k0 * n + (fn if lat < 0 else 0.0)
     return east, north, k0 * k, g
@@ -172,7 +178,10 @@ def tm_classes(case):
     if "lat" in case:
         out.append("north" if case["lat"] > 0 else ("south" if case["lat"] < 0 else "equator"))
         if case.get("zone", 0):
-            d = abs(case["lon"] - cm_of(p, case["zone"]))
+            raw = abs(case["lon"] - cm_of(p, case["zone"]))
+            if raw > 180.0:
+                out.append("across-antimeridian")
+            d = abs(((case["lon"] - cm_of(p, case["zone"]) + 180.0) % 360.0) - 180.0)
             out.append("dlon>=20" if d >= 20 else ("dlon>3" if d > 3 else ("on-cm" if d == 0 else "dlon<=3")))
         out.append("west" if case["lon"] < 0 else "east")
     return out
